@@ -334,6 +334,7 @@ func runC17(c *Ctx) {
 	c17URLPrecedence(c)
 	c17FlagAlwaysSet(c)
 	protectionFlagTrusted(c, "O5")
+	protectionLookupURLFromURLFields(c, "O7")
 }
 
 func c17Serialiser(c *Ctx, F *ssa.Function) {
